@@ -23,6 +23,8 @@ Ctl ==
   \/ \E s \in Streams, p \in Promised : ASendPush(s, p) /\ hist' = Append(hist, Rec("push", s, p, 0, FALSE, "-", 0))
   \/ \E s \in Streams : ASendPrio(s) /\ hist' = Append(hist, Rec("prio", s, 0, 0, FALSE, "-", 0))
   \/ ASendUnknown /\ hist' = Append(hist, Rec("unknown", 0, 0, 0, FALSE, "-", 0))
+  \/ ~aClosed /\ ASendSettings /\ hist' = Append(hist, Rec("settings", 0, 0, 0, FALSE, "-", 0))
+  \/ ~aClosed /\ BCtl([t |-> "SE", s |-> 0, v |-> 0]) /\ hist' = Append(hist, Rec("ctl", 0, 0, 0, FALSE, "SE", 0))
   \/ \E d \in Pings : ASendPing(d) /\ hist' = Append(hist, Rec("ping", 0, d, 0, FALSE, "-", 0))
   \/ nSend >= MaxSend - 2 /\ ASendGoAway /\ hist' = Append(hist, Rec("goaway", 0, 0, 0, FALSE, "-", 0))   \* towards the end only
   \* the sender ends its side while the relay still holds frames for the receiver; after that the receiver only grants
@@ -32,7 +34,8 @@ Ctl ==
         BCtl([t |-> "WU", s |-> s, v |-> i]) /\ hist' = Append(hist, Rec("ctl", s, 0, 0, FALSE, "WU", i))
   \/ ~aClosed /\ \E v \in InitWins : BCtl([t |-> "SI", s |-> 0, v |-> v]) /\ hist' = Append(hist, Rec("ctl", 0, 0, 0, FALSE, "SI", v))
   \/ ~aClosed /\ \E v \in MaxFrames : BCtl([t |-> "SM", s |-> 0, v |-> v]) /\ hist' = Append(hist, Rec("ctl", 0, 0, 0, FALSE, "SM", v))
-Internal == UNCHANGED hist /\ (WriterSend \/ ApplyCtl \/ BRecvGoAway \/ \E d \in Pings : BRecvPing(d))
+Internal == UNCHANGED hist /\ (WriterSend \/ ApplyCtl \/ BRecvGoAway \/ (\E d \in Pings : BRecvPing(d))
+                               \/ ARecvSettings \/ BRecvSettings \/ ARecvAck \/ BRecvAck)
 GNext == Ctl \/ Internal
 GSpec == GInit /\ [][GNext]_gvars
 Emit == hist # <<>> => PrintT(ToJson([h |-> hist]))
